@@ -225,7 +225,7 @@ CLAIMS = [
         'text': 'Accepted configurations: real projection and evaluation do not raise and every result element is defined (every '
                 'reachable reciprocal non-zero unless masked, log/root arguments in domain) for ALL weights and inputs. Listed '
                 'invalid combinations raise ValueError and only ValueError is raised (bounded enumeration, labelled bounded). '
-                'Synonymous spellings give structurally identical behaviour. Two known findings, one fix: commit.',
+                'Synonymous spellings give structurally identical behaviour. One known finding, two fix: commits.',
         'note': 'Trusted: operator contracts, Keras stub, z3/cvc5, reals for floats (overflow out of scope). The validator part is an '
                 'exhaustive evaluation inside small argument domains, not a proof; premade verify_config and rtl_lib are not enumerated.',
         'design_ref': 'DESIGN.md section 4 C16',
